@@ -51,7 +51,7 @@ def file_at(d, sub, case):
 
 
 # ------------------------------------------------------------------ building and running
-def build(case, trace):
+def build(case, trace, first=False):
     """the Experiment of the case (fresh objects every time, as in a re-run of the same script)"""
     from props.c02_components import Env, Lrn, Val
     from coba.experiments import Experiment
@@ -62,7 +62,7 @@ def build(case, trace):
         flags = [True] * len(envs) if ch is True else list(ch)
         envs = [Environments([e]).chunk()[0] if c else e for e, c in zip(envs, flags)]
     lrns = [Lrn(i, l.get("p", 0)) for i, l in enumerate(case["lrns"])]
-    vals = [Val(i, trace, v.get("mode", "rows"), v.get("style", 0), v.get("nrows", 3), case.get("empty", ()), case.get("boom", ()), case.get("big"))
+    vals = [Val(i, trace, v.get("mode", "rows"), v.get("style", 0), v.get("nrows", 3), case.get("empty", ()), case.get("boom", ()), case.get("big"), case.get("slow", ()) if first else ())
             for i, v in enumerate(case["vals"])]
     if case.get("triples") is None:
         return Experiment(envs, lrns, vals, description=case.get("desc"))
@@ -83,18 +83,26 @@ def ids_of(case):
     return em, lm, vm
 
 
-def run(case, path, trace, cfg):
+def run(case, path, trace, cfg, first=False):
     """Experiment.run on `path`; returns ("ok", Result) or ("raise", exception). Global state of coba is put back."""
     from coba.context import CobaContext, NullLogger
     old = CobaContext.logger
     CobaContext.logger = NullLogger()
+    cwd = None
+    if case.get("rel") and path.endswith(name_of(case)):
+        # the path is handed to run() RELATIVE to the current directory (which is put back afterwards)
+        cwd = os.getcwd()
+        os.chdir(path[:len(path) - len(name_of(case))] or ".")
+        path = name_of(case)
     try:
-        res = build(case, trace).run(path, quiet=True, processes=cfg.get("processes", 1), maxchunksperchild=cfg.get("maxchunksperchild", 0),
+        res = build(case, trace, first).run(path, quiet=True, processes=cfg.get("processes", 1), maxchunksperchild=cfg.get("maxchunksperchild", 0),
                                      maxtasksperchunk=cfg.get("maxtasksperchunk", 0))
         return "ok", res
     except Exception as e:      # noqa: the property says the resumed run must complete
         return "raise", e
     finally:
+        if cwd is not None:
+            os.chdir(cwd)
         CobaContext.logger = old
         CobaContext.store.pop("experiment_seed", None)
 
@@ -327,7 +335,9 @@ class C02(Property):
             "all/some/no environments chunk()ed in both declaration orders), result-file names of several shapes (containing '.gz' without ending in it, "
             "sub-directories, spaces, non-ASCII); 30% of the un-chunked cases cut a SPARSE log instead (version + experiment line + a PRNG-chosen subset of "
             "the records, optionally shuffled: what a killed multi-process run leaves); 30% of the cases interrupt a successful resumption again, 1-3 times, "
-            "on the same path in the same process; every .gz cut is sent to the model as compressed bytes + the gzip members of the real file; non-trivial = some cut strictly inside the log restores "
+            "on the same path in the same process; 4-8% of the cases run the INTERRUPTED first run multi-process (one evaluation slowed down so that worker schedules "
+            "reorder the records); 15% hand run() a relative path, 10% also a path whose directory is missing; Result.from_file is called on every log that is cut and on "
+            "every file a resumed run leaves; every .gz cut is sent to the model as compressed bytes + the gzip members of the real file; non-trivial = some cut strictly inside the log restores "
             "at least one record and leaves at least one task to run; distinct by canonical JSON of the case")
     trusted_base = [
         "file-system append semantics: a killed run leaves a byte prefix of what it would have written (the cut files are produced by truncating a complete log)",
@@ -337,6 +347,8 @@ class C02(Property):
         "re-running the same experiment produces the same record text for the same task (deterministic components: C01/C03); a raising task writes no record",
         "TransactionResult is a function of the records per id (`bodies`); Table/Result construction itself is C07/C17",
         "the n_learners/n_environments mismatch test of run() is not modelled (the re-run uses the same experiment)",
+        "entry point: the file system is a PathInfo (path string, directory exists, bytes of the file if any); relative paths are resolved by the OS (the model only sees the string for the gzip test); "
+        "for .gz the bytes of NEW members are produced by zlib and not by the model (compared after decompression; kept bytes and 'nothing but empty members appended' are compared on the bytes)",
         "sparse logs: with every task its own chunk and enough processes a killed run can leave the records of ANY subset of the tasks in ANY order after the two preamble lines (used only when no environment is chunk()ed); the theorems cover every ValidLog",
     ]
     assumptions = ["the experiment lists every triple once and is re-run unchanged", "evaluator objects are truthy",
@@ -345,6 +357,7 @@ class C02(Property):
         "resume_cur_partial": "the pinned code was only correct for cuts on a record boundary after the experiment line; the full theorem (resume_correct) holds for the repaired code",
         "resume_correct_committed": "code as committed in /repo (torn-tail, preamble, gz repair): hypothesis NonEmptyI is necessary (empty_rows_counterexample, finding C02-F6); "
                                     "with fixes/C02-finished-triples.diff the hypothesis is gone (resume_correct, no_reeval, resume_chain, resume_from_any_sublog, gz_resume_correct)",
+        "resume_idempotent_committed": "as resume_correct_committed",
         "resume_eq_full_committed": "as resume_correct_committed", "no_reeval_committed": "as resume_correct_committed", "resume_chain_committed": "as resume_correct_committed",
     }
 
@@ -510,6 +523,14 @@ class C02(Property):
         c["cuts"] = cuts
         if not c.get("chunk") and rng.chance(0.3):
             c["sparse"] = {"seed": rng.below(10 ** 6), "keep": rng.choice([300, 500, 700, 850]), "shuffle": rng.chance(0.5)}
+        elif not mp and rng.chance(0.04 if tier == "quick" else 0.08):
+            # the INTERRUPTED (first) run is multi-process: the record order of the file that is cut comes from real worker schedules
+            c["cfg0"] = self.gen_cfg(rng, True)
+            c["slow"] = [[rng.below(len(c["envs"])), rng.below(len(c["lrns"]))] for _ in range(rng.choice([1, 1, 2]))]   # only in the first run
+        if rng.chance(0.15):
+            c["rel"] = True
+        if rng.chance(0.1):
+            c["nodir"] = True
         if not mp and rng.chance(0.3):
             c["chain"] = {"p": rng.below(1001), "d": rng.choice([-1, 0, 0, 1, 2]), "links": rng.choice([1, 2, 2, 3]), "cfg": self.gen_cfg(rng, False)}
         return c
@@ -555,6 +576,12 @@ class C02(Property):
         for nm in NAMES:
             cs.append(dict(base, name=nm, gz=".gz" in nm, cuts=[["b", 3, 0], ["b", 3, 1], ["b", 4, -1], ["b", 5, 0], ["b", 0, 0], ["b", 1, 0]],
                            chain={"p": 300, "d": 0, "links": 2, "cfg": CFG1}))
+        # entry glue: relative paths, a path whose directory is missing; first (interrupted) run multi-process
+        for nm in ("r.log", "a.gz.d/r.log", "r.gz.bak"):
+            cs.append(dict(base, name=nm, gz=".gz" in nm, rel=True, nodir=True, cuts=[["b", 0, 0], ["b", 1, 0], ["b", 4, 2], ["b", 99, 0]]))
+        cs.append(dict(base, envs=[{"n": 1}, {"n": 2}, {"n": 1}], lrns=[{}, {"p": 1}], cfg0={"processes": 3}, slow=[[0, 0], [1, 1]], gz=False, cuts=ALL))
+        cs.append(dict(base, envs=[{"n": 1}, {"n": 2}], lrns=[{}, {"p": 1}], cfg0={"processes": 2, "maxchunksperchild": 1}, slow=[[0, 0]], name="r.log.gz", gz=True,
+                       cuts=[["b", i, d] for i in range(3, 11) for d in (0, 1)], chain={"p": 500, "d": 0, "links": 2, "cfg": CFG1}))
         # chunk()ed environment declared before a plain one and the other way round: E records out of id order
         for fl in ([True, False], [False, True], [True, False, True]):
             cs.append(dict(base, envs=[{"n": 1}] * len(fl), lrns=[{}, {}], chunk=fl, gz=False, cuts=ALL))
@@ -603,10 +630,15 @@ class C02(Property):
             if case["big"].get("kind", "hex") != "hex":
                 tags.append("long-record:compressible:" + fmt)
         tags.append("flags:" + "".join(str(int(x)) for x in flags))
+        c0 = case.get("cfg0", CFG1)
+        if c0.get("processes", 1) > 1 or c0.get("maxchunksperchild", 0):
+            tags.append("cfg0:multiprocess")
+        if case.get("rel"):
+            tags.append("entry:relative-path")
 
         # the uninterrupted run
         full_path = file_at(d, "full", case)
-        st, res = run(case, full_path, trace, case.get("cfg0", CFG1))
+        st, res = run(case, full_path, trace, case.get("cfg0", CFG1), first=True)
         if st != "ok":
             return {"fails": [F("B", "the uninterrupted run raised %r" % (res,), "full-run-raises")], "nontrivial": False, "tags": tags}
         ref = canon_result(res)
@@ -633,6 +665,16 @@ class C02(Property):
             return tindex[ln]
         full_idx = [entry(ln, r) for ln, r in zip(log.lines, log.recs)]
         is_magic = log.data[:2] == b"\x1f\x8b"
+        if "cfg0:multiprocess" in tags:
+            # does the schedule of the workers show in the record order? (reference: the same run in one process)
+            ref_path = file_at(d, "ref1", case)
+            st1, _ = run(case, ref_path, None, CFG1)
+            if st1 == "ok":
+                try:
+                    ref_lines = Log(open(ref_path, "rb").read(), gz).lines
+                    tags.append("first-run-order:" + ("as-single-process" if ref_lines == log.lines else "differs-from-single-process"))
+                except (LogShape, ValueError):
+                    pass
         sp = case.get("sparse")
         if sp and not case.get("chunk") and len(log.lines) > 2:
             # what a multi-process run (every task its own chunk) leaves when it is killed: version + experiment line and the
@@ -702,8 +744,9 @@ class C02(Property):
                 groups = {}
                 for n, st_ in enumerate(steps):
                     groups.setdefault(id(st_[1]), []).append(n)
+                nodir_done = []
                 mtbl, mindex = [], {}       # .gz: the gzip members of the real files, [table index of the payload line or -1, bytes]
-                name_bytes = list(full_path.encode("utf-8"))
+                name_bytes = list((name_of(case) if case.get("rel") else full_path).encode("utf-8"))
                 for _, ns in groups.items():
                     lg, lidx = steps[ns[0]][1], steps[ns[0]][2]
                     req = {"tbl": table, "ver": ver_i, "exp": exp_i, "triples": triples_of(case), "flags": [bool(x) for x in flags],
@@ -727,6 +770,27 @@ class C02(Property):
                                            % (name_of(case), "gzip" if is_magic else "plain text", dec[0]), "A:gz-decision-sink"))
                     if not ans.get("gz_extracted", True):
                         tags.append("gz-predicates:not-extracted")
+                    if "from_file" in ans and len(lg.data) < 300000:
+                        # Result.from_file on the (uncut) log that is being cut
+                        pf = file_at(d, "ff%d" % ns[0], case)
+                        with open(pf, "wb") as f:
+                            f.write(lg.data)
+                        try:
+                            from coba.results import Result
+                            Result.from_file(pf)
+                            real_ff = "ok"
+                        except Exception:
+                            real_ff = "raise"
+                        if (ans["from_file"] == "raise") != (real_ff == "raise") or ans["from_file"] == "other":
+                            fails.append(F("A", "Result.from_file on the complete log: implementation %s, model %s" % (real_ff, ans["from_file"]), "A:from-file-log"))
+                    if case.get("nodir") and "nodir_raises" in ans and not nodir_done:
+                        nodir_done.append(1)
+                        pm = os.path.join(d, "missing-dir", name_of(case))
+                        stn, _ = run(dict(case, rel=False), pm, None, CFG1)
+                        tags.append("entry:directory-missing")
+                        if (stn == "raise") != bool(ans["nodir_raises"]):
+                            fails.append(F("A", "run() on a path whose directory does not exist: implementation %s, model %s" % (
+                                stn, "raise" if ans["nodir_raises"] else "ok"), "A:nodir"))
                     for n, mo in zip(ns, ans["cuts"]):
                         self.compare(case, steps[n], observed[n], mo, ans["hyp"], flags, table, fails, tags)
                         model.append({"k": steps[n][3], "model": {kk: vv for kk, vv in mo.items() if kk != "spec"}, "hyp": ans["hyp"]})
@@ -778,6 +842,15 @@ class C02(Property):
         st, res = run(case, path, trace, cfg)
         final = open(path, "rb").read()
         evaluated = read_trace(trace)
+        if st == "ok" and len(final) < 300000:
+            # entry glue: Result.from_file on the file the run leaves is the Result the run returned
+            try:
+                from coba.results import Result
+                again = canon_result(Result.from_file(path))
+                if again != canon_result(res):
+                    fails.append(F("A", "Result.from_file on the resumed file differs from the Result run() returned: " + where, "A:from-file-differs"))
+            except Exception as e:
+                fails.append(F("A", "Result.from_file on the resumed file raised %r although run() returned: %s" % (e, where), "A:from-file-raises"))
         ob = {"path": path, "good": good, "class": cls, "status": st, "evaluated": [list(t) for t in evaluated], "final_data": final, "j": j, "cut": cut,
               "restored_n": j, "ntasks": 0, "final_readable": False, "kept_records": j}
         recorded = set()      # object triples with an I record among the complete lines of the cut file
@@ -853,8 +926,24 @@ class C02(Property):
         if gz and ob.get("good") is not None and "good" in mo and mo["good"] != ob["good"]:
             fails.append(F("A", "%s: _drop_torn_tail leaves %d bytes of the .gz file, the model's member scan %d" % (where, ob["good"], mo["good"]),
                            "A:gz-member-scan:" + sigc))
+        if not gz and "n_complete" in mo:
+            want = ob["j"] + (1 if ob["class"] == "unterminated" else 0)
+            if mo["n_complete"] != want:
+                fails.append(F("A", "%s: the cut file holds %d complete records, the model's nCompleteB says %d" % (where, want, mo["n_complete"]), "A:n-complete:" + sigc))
         if mo["restore"] == "raise":
             return
+        if gz and ob["status"] == "ok" and "good" in mo:
+            # the compressed bytes the repair keeps stay untouched; what the run adds after them are complete members; when the
+            # model appends no record (idempotence on a complete log) they decompress to nothing
+            keep = ob["cut"][:mo["good"]]
+            fin = ob["final_data"]
+            added = content_of(fin[len(keep):], True) if fin[:len(keep)] == keep else None
+            if added is None:
+                fails.append(F("A", "%s: the resumed run did not keep the %d bytes of complete gzip members / appended unreadable bytes" % (where, mo["good"]), "A:gz-kept-bytes:" + sigc))
+            elif not mo["appended"] and added != b"":
+                fails.append(F("A", "%s: the model appends nothing, the run appended members holding %r" % (where, added[:60]), "A:gz-idempotent:" + sigc))
+        if not gz and ob["status"] == "ok" and ob["class"] == "complete" and not mo["appended"] and ob["final_data"] != ob["cut"]:
+            fails.append(F("A", "%s: a second run on the complete plain log changed the file (model: byte-identical)" % where, "A:idempotent-bytes"))
         # tasks evaluated
         em, lm, vm = ids_of(case)
         m_eval = sorted((t[1], t[2], t[3]) for t in mo["tasks"] if t[0] == "I")
